@@ -158,6 +158,9 @@ def _offset_from_position(f, o):
         for bb, kind, x in f.defs().get(l, []):
             if kind == "call" and x.name in ("position", "rposition", "binary_search_by_key", "binary_search_by"):
                 return k
+            if kind == "call" and x.name in ("branch", "ok_or", "ok_or_else", "unwrap", "expect", "ok") and x.args and "p" in x.args[0]:
+                # `position(..).ok_or_else(not_found)?`: the same index, unwrapped
+                nxt = x.args[0]["p"][0]
             if kind == "stmt" and x.get("k") in ("use", "ref", "cast") and x["o"] and "p" in x["o"][0]:
                 nxt = x["o"][0]["p"][0]
             elif kind == "stmt" and x.get("k") == "binop" and x["op"].startswith("Add") and len(x["o"]) == 2:
@@ -173,14 +176,44 @@ def _offset_from_position(f, o):
     return None
 
 
+def _each_host(prog, f, rl):
+    """the `for_each` / `try_for_each` call of f whose closure makes the release call rl (None: rl is made by f itself)"""
+    if rl.fn is f:
+        return None
+    for c in f.live_calls():
+        if c.name in ("for_each", "try_for_each") and any(g is rl.fn for g in A.closure_args(prog, c)):
+            return c
+    return None
+
+
+def _releases(prog, f):
+    """release_group_snapshot calls made by f or by the body of a for_each over one of its iterators"""
+    out = [c for c in f.live_calls() if K.is_storage_trait_call(c, "release_group_snapshot")]
+    for c in f.live_calls():
+        if c.name in ("for_each", "try_for_each"):
+            for g in A.closure_args(prog, c):
+                out += [x for x in g.live_calls() if K.is_storage_trait_call(x, "release_group_snapshot")]
+    return out
+
+
 def clause_release_covers_suffix(prog, rep, f, sp, rels):
     """the rollback consumes exactly one stored snapshot (the target's); of the entries that leave the queue with it, all the others must be
     released: the loop may pass over exactly the consumed entry — not more (`if i > 1`, `.skip(2)`: a superseded snapshot stays in storage,
     unseen by the retention bound) and not fewer"""
     for rl in rels:
-        if "p" not in rl.args[-1]:
-            continue
-        og = A.origins(prog, f, rl.args[-1]["p"][0], scope=None, max_frames=0)
+        host = _each_host(prog, f, rl)
+        if host is not None:
+            # released by the body of `suffix_iter.for_each(|snap| release(snap))`: the range is what the adaptor iterates
+            if "p" not in host.args[0]:
+                continue
+            og = A.origins(prog, f, host.args[0]["p"][0], scope=None, max_frames=0)
+            if A.control_dependent_switches(rl.fn, rl.bb):
+                rep.note("C20 rollback-discards-suffix: the release inside the closure of %s is guarded; coverage of the suffix not decided" % f.label())
+                continue
+        else:
+            if "p" not in rl.args[-1]:
+                continue
+            og = A.origins(prog, f, rl.args[-1]["p"][0], scope=None, max_frames=0)
         cut = [c for c in sp if og.has_call(lambda x, c=c: x is c)]
         skips = [x for x in og.calls if x.name == "skip" and len(x.args) == 2]
         base = None          # first released position relative to the target's index, before guards
@@ -200,7 +233,7 @@ def clause_release_covers_suffix(prog, rep, f, sp, rels):
         undecided = False
         for i in range(0, 6):
             ok_i = True
-            for w in A.control_dependent_switches(f, rl.bb):
+            for w in (A.control_dependent_switches(f, rl.bb) if host is None else []):
                 t = f.term(w)
                 l = A._opl(t["discr"])
                 d = [x for bb, kind, x in f.defs().get(l, []) if kind == "stmt" and x.get("k") == "binop" and x.get("op") in CMP]
@@ -242,18 +275,35 @@ def clause_rollback_releases(prog, rep):
         if not rb:
             continue
         n += 1
-        rels = [c for c in f.live_calls() if K.is_storage_trait_call(c, "release_group_snapshot")]
+        rels = _releases(prog, f)
         ok = False
         for rl in rels:
-            og = A.origins(prog, f, rl.args[-1]["p"][0], scope=None, max_frames=0) if "p" in rl.args[-1] else None
+            host = _each_host(prog, f, rl)
+            src = host.args[0] if host is not None else rl.args[-1]
+            at = host.bb if host is not None else rl.bb
+            og = A.origins(prog, f, src["p"][0], scope=None, max_frames=0) if "p" in src else None
             if og and og.has_call(lambda x: x.name in ("split_off", "drain", "pop_back")):
                 ok = True
             # or: released while still in the queue, then cut off (for snap in queue.iter().skip(i + 1) { release }; queue.truncate(i))
-            if og and og.has_call(in_place) and any(c.bb in f.reachable_from(rl.bb) for c in sp):
+            if og and og.has_call(in_place) and any(c.bb in f.reachable_from(at) for c in sp):
                 ok = True
         # copy provenance of the released name: a field of the element iterated out of the split-off suffix
         for rl in rels:
             if "p" not in rl.args[-1]:
+                continue
+            host = _each_host(prog, f, rl)
+            if host is not None:
+                # in a for_each body the element is the closure's own parameter, and the iterator is the adaptor's receiver
+                g = rl.fn
+                pr = A.producers(prog, g, rl.args[-1]["p"][0], scope=set(), max_frames=0)
+                names = sorted(set(x.name for x in pr["calls"]))
+                elem = not pr["calls"] and "snapshot_name" in pr["fields"] and bool(pr["params"]) and all(l == 2 for (_, l) in pr["params"])
+                og2 = A.origins(prog, f, host.args[0]["p"][0], scope=None, max_frames=0) if "p" in host.args[0] else None
+                src_ok = bool(og2) and (og2.has_call(lambda y: y.name in ("split_off", "drain")) or og2.has_call(in_place))
+                rep.check(elem and src_ok, "rollback-discards-suffix", f.label() + "/released-name",
+                          "each release names the split-off element's own snapshot_name",
+                          "the name passed to release_group_snapshot is produced by %s, not by the element iterated out of the split-off suffix: the "
+                          "superseded snapshots stay in storage" % names, rl.loc())
                 continue
             pr = A.producers(prog, f, rl.args[-1]["p"][0], scope=None, max_frames=0)
             names = sorted(set(x.name for x in pr["calls"]))
